@@ -35,14 +35,23 @@ type Publisher struct {
 // destination. Which may be a file system, or somewhere else of your choosing.
 // If you only wish to generate files you should use a DirectoryFileWriter.
 func NewPublisher(doc *gedcom.Document, options *PublishShowOptions) *Publisher {
-	return &Publisher{
+	publisher := &Publisher{
 		doc:          doc,
 		options:      options,
 		indexLetters: GetIndexLetters(doc, options.LivingVisibility),
-
-		// placesMap can be nil because we handle found the places yet.
-		individuals: GetIndividuals(doc, nil),
 	}
+
+	// The places have to be known before any page is created. The name of the
+	// page for an individual depends on them (an individual and a place must
+	// not share a page) and every page links to individuals. When places are
+	// not published placesMap stays nil, which makes all links to places inert.
+	if options.ShowPlaces {
+		publisher.Places()
+	}
+
+	publisher.individuals = GetIndividuals(doc, publisher.placesMap)
+
+	return publisher
 }
 
 func (publisher *Publisher) Publish(fileWriter core.FileWriter, parallel int) (err error) {
